@@ -176,6 +176,10 @@ def gen_write_history(rng):
     enc = rng.choice(["none", "sie", "gzip", "bzip2", "lzma", "gzip", "bzip2", "lzma"])
     spf = rng.choice([1, 1, 2]); fo = rng.choice([0, 0, 2]); FO = fo * spf
     ln = rng.randint(4, 40)
+    # a field declared in the format file whose data file does not exist yet: the first write creates it (for the
+    # out-of-place encodings only the temporary write side is open until the first close)
+    nofile = rng.random() < 0.2
+    if nofile: ln = 0
     base = [(7 * k) % 251 for k in range(ln)]
     data = list(base)        # samples from FO on
     ptr = FO                 # the field's I/O pointer by the rules
@@ -190,9 +194,11 @@ def gen_write_history(rng):
         j = at_abs - FO
         if j > len(data): data.extend([0] * (j - len(data)))
         data[j:j + len(vs)] = vs
-    for _ in range(rng.randint(2, 7)):
+    for step_no in range(rng.randint(2, 7)):
         eof = FO + len(data)
         u = rng.random()
+        if nofile and not wrote: u = 0.0          # nothing can be asked of a field without a data file before it is written
+        elif nofile and step_no == 1: u = 0.9     # ... and straight after the first write: a query
         cand = [FO, eof, eof - 1, eof + 1, ptr, ptr - 1, ptr + 1, FO + ln, FO + ln - 1, FO + ln + 1, rng.randint(FO, eof + 6), rng.randint(FO, eof)]
         t = max(FO, rng.choice(cand))
         k = rng.randint(1, 6)
@@ -229,13 +235,14 @@ def gen_write_history(rng):
     steps.append(("e a", "e %d 0" % len(full)))
     steps.append(("g a 0 %d u8" % (len(full) + 20), ("g %d 0 %s" % (len(full), " ".join(map(str, full)))).strip()))
     case = dict(enc=enc, spf=spf, foff=fo, raws=[dict(name="a", type="UINT8", vals=base)],
-                derived=[dict(name="l", kind="L", m=1, b=0, **{"in": "a"})], ops=[], after_query=sorted(after_query))
+                derived=[dict(name="l", kind="L", m=1, b=0, **{"in": "a"})], ops=[], after_query=sorted(after_query), nofile=nofile)
     return case, steps
 
 
 def run_write_history(exe, d, case, steps):
     """-> None or (step index, call, expected, got), and the answers"""
     C.make_dirfile(d, case)
+    if case.get("nofile"): os.unlink(os.path.join(d, "a" + C.EXT[case["enc"]]))
     rc, out = vlib.sh([exe, d], inp=("\n".join(["o 1"] + [s for s, _ in steps]) + "\n").encode(), timeout=20)
     lines = out.strip().split("\n")[1:]
     FO = case["foff"] * case["spf"]
